@@ -24,6 +24,8 @@ def base_worlds():
     yield 'repeat', [0, 10, 20, 30, 40, 50, 60, 70, 80], [0, 10, 20, 30]
     yield 'del', base, [0, 10, 40, 60, 70]
     yield 'ins', base, [0, 4, 10, 30, 33, 40, 60]
+    yield 'jitter', base, [0, 13, 30, 40, 57, 60, 90]
+    yield 'jitter-indel', base, [0, 10, 33, 40, 65, 75, 104]
 
 
 def derived_worlds():
@@ -41,6 +43,42 @@ def derived_worlds():
                     yield 'r%d-w%d-indel-5@%d' % (ri, s, i), ref, w[:i] + [p - 5 for p in w[i:]]
                 yield 'r%d-w%d-del@%d' % (ri, s, i), ref, w[:i] + w[i + 1:]
                 yield 'r%d-w%d-ins@%d' % (ri, s, i), ref, sorted(w + [w[i] - 4])
+                # one displaced label: paired under one seed peak, unpaired under a neighbouring one
+                for d in (3, -3, 4):
+                    yield 'r%d-w%d-jit%+d@%d' % (ri, s, d, i), ref, w[:i] + [w[i] + d] + w[i + 1:]
+                # stretched AND one displaced label: the merge point of two overlapping segments falls inside the overlap while
+                # one sub-run has an unpaired position the other one pairs
+                for d in (3, -3):
+                    st = [p * 11 // 10 for p in w]
+                    yield 'r%d-w%d-stretch11+jit%+d@%d' % (ri, s, d, i), ref, st[:i] + [st[i] + d] + st[i + 1:]
+
+
+def ladder_worlds(full):
+    """long molecules (14 labels) whose second half is shifted by half a step (an indel), the shift building up over a short
+    transition (an 'indel ladder'), optionally with one transition label displaced.  Two segments from the two diagonals then
+    overlap in a few labels only (less than half of either), are chained, and the merge point falls INSIDE the overlap - the
+    interior branch of the trimming code, with sub-runs whose unpaired positions differ."""
+    ref = [0, 10, 20, 30, 50, 60, 70, 80, 100, 110, 120, 130, 140, 160, 170, 180, 190, 210, 220, 230]
+    first, n = 2, 14
+    for sign in (1, -1):
+        for k in (2, 3, 4):
+            for trans in itertools.combinations_with_replacement((1, 2, 3, 4), k):
+                if not full and trans not in ((1, 3), (2, 2), (2, 3), (1, 2, 3), (2, 2, 3), (2, 3, 3), (1, 2, 3, 4), (2, 2, 3, 3)):
+                    continue
+                for j, v in [(None, None)] + [(j, v) for j in range(k) for v in (0, -1, 5)]:
+                    t = list(trans)
+                    if j is not None:
+                        if t[j] == v:
+                            continue
+                        t[j] = v
+                    a = 5
+                    offs = [0] * a + t + [5] * (n - a - k)
+                    q = [ref[first + i] - ref[first] + sign * o for i, o in enumerate(offs)]
+                    if any(y <= x for x, y in zip(q, q[1:])):
+                        continue
+                    p0 = ref[first]
+                    grid = [p0 - 10, p0 - 5, p0, p0 + 5, p0 + 10]
+                    yield 'ladder%+d-%s-disp%s' % (sign, ''.join(map(str, trans)), '' if j is None else '%d=%d' % (j, v)), ref, q, grid
 
 
 def mirror(q):
@@ -141,6 +179,8 @@ def check_case(rpos, qpos, maxd, rev, pk, acc, aligner=None, scoring=0):
         acc.classes['segments-in=%d' % min(len(ne), 5)] += 1
         if trimmed:
             acc.classes['trimmed-or-dropped'] += 1
+        if len(ne) >= 2 and sum(1 for o in outne for s_ in ne if subrun(o, s_) and 0 < len(o.positions) < len(s_.positions)) >= 2:
+            acc.classes['>=2-segments-partially-trimmed(interior-merge)'] += 1
         if len(ne) >= 3 and len(outne) < len(ne):
             acc.classes['segment-emptied-or-unchained(>=3 in)'] += 1
         for f in found:
@@ -162,12 +202,12 @@ class Ladders(core.Layer):
         return len(self.worlds) * 4
 
     def run_block(self, b, acc):
-        name, rpos, qpos = self.worlds[b // 4]
+        name, rpos, qpos = self.worlds[b // 4][:3]
         maxd = (4, 6)[b % 2]
         sc = (b // 2) % 2
         al = make_aligner(maxd, *SCORING[sc])
         lo = -qpos[-1] // 2 // 5 * 5 - 10
-        grid = list(range(lo, rpos[-1] + 10, 5))
+        grid = list(range(lo, rpos[-1] + 10, 5)) if len(self.worlds[b // 4]) < 4 else list(self.worlds[b // 4][3])
         for k in range(2, self.kmax + 1):
             for i0 in range(len(grid)):
                 for strides in itertools.product((1, 2, 3), repeat=k - 1):
@@ -188,6 +228,8 @@ class Ladders(core.Layer):
 def layers(tier, seed):
     base = list(base_worlds())
     if tier == 'quick':
-        return [Ladders('base,k<=4', base, 4)]
+        return [Ladders('base,k<=4', base, 4), Ladders('derived/5,k<=3', list(derived_worlds())[::5], 3),
+                Ladders('indel-ladders,k<=3', list(ladder_worlds(False)), 3)]
     der = list(derived_worlds())
-    return [Ladders('base,k<=5', base, 5), Ladders('derived,k<=3', der, 3), Ladders('derived,k=4', der, 4, optional=True)]
+    return [Ladders('base,k<=5', base, 5), Ladders('indel-ladders,k<=4', list(ladder_worlds(True)), 4), Ladders('derived,k<=3', der, 3),
+            Ladders('derived,k=4', der, 4, optional=True)]
